@@ -8,13 +8,6 @@ from common import w_shapes, r_shapes, w_str, r_str
 MODES = [('check', 2), ('default', 3), ('pretty', 4), ('wrap', 5)]
 
 
-def norm(es):
-    """The only difference allowed: a final top-level comment without LF gets one."""
-    if es and isinstance(es[-1], str) and es[-1].startswith(';') and not es[-1].endswith('\n'):
-        return es[:-1] + [es[-1] + '\n']
-    return es
-
-
 def nontrivial(es):
     def lits(e):
         if isinstance(e, str):
@@ -43,7 +36,7 @@ def impl_property(impl, es):
     """Check the property itself on the implementation for the shape list es.
     Returns None if it holds, else a dict describing the failure."""
     exprs = impl.from_shapes(es)
-    want = norm(es)
+    want = es
     toks = None
     for mode, _ in MODES:
         try:
@@ -136,6 +129,7 @@ def run(ctx):
     for _ in range(ntext):
         t = ''.join(rng.choice(alphabet) for _ in range(rng.choice([1, 3, 8, 20, 60])))
         texts.append(t)
+    texts += ['a ; c', '; c', '(a ; c', '(a)\n; foo', ';', 'x;', '(a) ;\r']      # a comment ended by the end of input (F32)
     # 1. model wf check (generator validation) and model renderings
     calls = []
     for es in cases:
